@@ -1,6 +1,8 @@
 package utils
 
 import (
+	"fmt"
+
 	"github.com/go-logr/logr"
 	metav1 "k8s.io/apimachinery/pkg/apis/meta/v1"
 	"k8s.io/apimachinery/pkg/labels"
@@ -33,9 +35,11 @@ func ConvertLabelSelector(logger logr.Logger, inSelector *metav1.LabelSelector) 
 			case metav1.LabelSelectorOpDoesNotExist:
 				op = selection.DoesNotExist
 			default:
-				logger.Info("Invalid Operator:", expr.Operator)
+				// dropping the requirement would silently widen the selector
+				err := fmt.Errorf("invalid label selector operator %q", expr.Operator)
+				logger.Error(err, "NewRequirement")
 
-				continue
+				return outSelector, err
 			}
 			req, err := labels.NewRequirement(expr.Key, op, expr.Values)
 			if err != nil {
